@@ -16,7 +16,7 @@ import (
 func init() { reg.Register("route.mount", runMount) }
 
 type mstmt struct {
-	Kind    string   `json:"kind"` // m use usenp usemulti all | mount | group
+	Kind    string   `json:"kind"` // m use usenp usemulti all | mount | group | cons | rebuild
 	Methods []string `json:"methods,omitempty"`
 	Path    string   `json:"path,omitempty"`
 	Hs      []hspec  `json:"hs,omitempty"`
@@ -33,6 +33,10 @@ type mstmt struct {
 	// custom constraint carried by Path: parameter name and constraint name
 	ConsParam string `json:"cons_param,omitempty"`
 	ConsKind  string `json:"cons_kind,omitempty"`
+	// cons: RegisterCustomConstraint(<Name>) on the app that owns the enclosing router
+	Name string `json:"name,omitempty"`
+	// mount: the prefix is handed over as a list, Use([]string{…}, subApp). Prefix is its first entry.
+	PrefixList []string `json:"prefix_list,omitempty"`
 }
 
 type subCfg struct {
@@ -44,11 +48,12 @@ type mprog struct {
 	Cfg Cfg `json:"cfg"`
 	// Config.RequestMethods of every app of the program (nil = the default list)
 	Methods []string `json:"request_methods,omitempty"`
-	// Cons: where the custom constraints are registered in the composition under test:
-	// "" nowhere (no constrained routes), "sub" on every mounted app but not on the root (constrained
-	// routes live in mounted apps only), "all" on every app. The reference composition, which has
-	// only the root app, registers them on the root whenever Cons != "".
-	Cons string `json:"custom_constraints,omitempty"`
+	// RootCons: custom constraints the root registers before anything else. Further constraints
+	// are registered by "cons" statements on the app that owns the enclosing router, interleaved
+	// with the routes. A route only names a constraint that its own app has registered before the
+	// route, or that is in RootCons. The reference composition has only the root app, which
+	// registers the whole catalogue up front (same name = same predicate everywhere).
+	RootCons []string `json:"root_custom_constraints,omitempty"`
 	// Shared: prefix lists kept in one slice variable each and passed to several Use calls
 	Shared [][]string `json:"shared_prefix_lists,omitempty"`
 	Root   []mstmt    `json:"root"`
@@ -57,16 +62,52 @@ type mprog struct {
 var mountPrefixes = []string{"/", "/api", "/api/", "/:v", "/a/b", "/Api", "/ab", "/abc", "/:Ver"}
 var mountPaths = []string{"/", "/a", "/ab", "/abc", "/x", "/:p", "/a/:p", "/*", "/abc/d", "/:p?", "/api", "/a/", "/:pId", "/a/:Key", `/a\:b`, `/x\*`, `/ab\+/:p`, "/Ab", "/abc/", "/x/Y/"}
 
-// routes whose parameter carries a custom constraint (registered with RegisterCustomConstraint)
-var mountConsPaths = []struct{ Path, Param, Kind string }{
-	{"/:p<even>", "p", "even"}, {"/a/:p<even>", "p", "even"}, {"/:p<Upper>", "p", "Upper"}, {"/ab/:q<even>?", "q", "even"},
+// routes whose parameter carries a custom constraint; %s is the constraint's name
+var mountConsPaths = []struct{ Path, Param string }{
+	{"/:p<%s>", "p"}, {"/a/:p<%s>", "p"}, {"/ab/:q<%s>?", "q"}, {"/Ab/:p<%s>", "p"},
+}
+
+// predConstraint is a custom constraint of the catalogue: a name and a predicate.
+type predConstraint struct {
+	name string
+	f    func(string) bool
+}
+
+func (p predConstraint) Name() string                       { return p.name }
+func (p predConstraint) Execute(v string, _ ...string) bool { return p.f(v) }
+
+// catalogue of custom constraints; a name means the same predicate on every app
+var mountConsCatalogue = []predConstraint{
+	{"even", func(v string) bool { return len(v)%2 == 0 }},
+	{"Upper", func(v string) bool { return v == strings.ToUpper(v) }},
+	{"startx", func(v string) bool { return strings.HasPrefix(v, "x") || strings.HasPrefix(v, "X") }},
+	{"short", func(v string) bool { return len(v) <= 2 }},
+	{"nodigit", func(v string) bool { return !strings.ContainsAny(v, "0123456789") }},
+}
+
+func mountConsNames() []string {
+	out := make([]string, len(mountConsCatalogue))
+	for i, c := range mountConsCatalogue {
+		out[i] = c.name
+	}
+	return out
+}
+
+func registerCons(app *fiber.App, names []string) {
+	for _, n := range names {
+		for _, c := range mountConsCatalogue {
+			if c.name == n {
+				app.RegisterCustomConstraint(c)
+			}
+		}
+	}
 }
 
 var extraMethods = []string{"PURGE", "LINK"}
 
 // newApp builds one app of a composition: cfg's routing options, the program's method list, and
-// the custom constraints when withCons.
-func (p *mprog) newApp(cfg Cfg, withCons bool) *fiber.App {
+// the custom constraints it registers before anything else.
+func (p *mprog) newApp(cfg Cfg, cons []string) *fiber.App {
 	fc := cfg.FiberConfig()
 	if p.Methods != nil {
 		fc.RequestMethods = append([]string(nil), p.Methods...)
@@ -77,10 +118,7 @@ func (p *mprog) newApp(cfg Cfg, withCons bool) *fiber.App {
 			return &customCtx{DefaultCtx: *fiber.NewDefaultCtx(a)}
 		})
 	}
-	if withCons {
-		app.RegisterCustomConstraint(evenConstraint{})
-		app.RegisterCustomConstraint(upperConstraint{})
-	}
+	registerCons(app, cons)
 	return app
 }
 
@@ -91,7 +129,7 @@ func (p *mprog) subApp(s *mstmt) *fiber.App {
 	if s.Sub != nil {
 		cfg.CaseSensitive, cfg.Strict = s.Sub.CaseSensitive, s.Sub.Strict
 	}
-	return p.newApp(cfg, p.Cons != "")
+	return p.newApp(cfg, nil)
 }
 
 // sharedLists instantiates the program's shared slice variables for one build.
@@ -123,6 +161,8 @@ type mgen struct {
 	prog       *mprog
 	// handler id -> {parameter, custom constraint} of its route
 	consOf map[int][2]string
+	// a mounted app registers a custom constraint of its own somewhere
+	subCons bool
 }
 
 func newMgen(r *gen.Rand, p *mprog, budget int) *mgen {
@@ -153,7 +193,26 @@ func (g *mgen) hs(inSub bool) []hspec {
 
 var usePrefixPool = []string{"/", "/a", "/ab", "/api", "/:p", "/abc"}
 
-func (g *mgen) route(inSub bool) mstmt {
+// route generates one registration. known: the custom constraints a route may name here (those
+// its app has registered so far, most recent last, and the root's initial ones).
+func (g *mgen) route(inSub bool, known []string) mstmt {
+	s := g.routeStmt(inSub)
+	if (s.Kind == "m" || s.Kind == "all") && len(known) > 0 && g.r.Chance(1, 3) {
+		g.constrain(&s, gen.Pick(g.r, known))
+	}
+	return s
+}
+
+// constrain gives the (endpoint) statement a path whose parameter carries the named constraint.
+func (g *mgen) constrain(s *mstmt, name string) {
+	cp := gen.Pick(g.r, mountConsPaths)
+	s.Path, s.ConsParam, s.ConsKind = fmt.Sprintf(cp.Path, name), cp.Param, name
+	for _, h := range s.Hs {
+		g.consOf[h.ID] = [2]string{s.ConsParam, s.ConsKind}
+	}
+}
+
+func (g *mgen) routeStmt(inSub bool) mstmt {
 	r := g.r
 	g.budget--
 	s := mstmt{}
@@ -196,17 +255,7 @@ func (g *mgen) route(inSub bool) mstmt {
 			}
 		}
 	}
-	// a parameter with a custom constraint, where the composition registers the constraints
-	if (s.Kind == "m" || s.Kind == "all") && (g.prog.Cons == "all" || g.prog.Cons == "sub" && inSub) && r.Chance(1, 3) {
-		cp := gen.Pick(r, mountConsPaths)
-		s.Path, s.ConsParam, s.ConsKind = cp.Path, cp.Param, cp.Kind
-	}
 	s.Hs = g.hs(inSub)
-	if s.ConsKind != "" {
-		for _, h := range s.Hs {
-			g.consOf[h.ID] = [2]string{s.ConsParam, s.ConsKind}
-		}
-	}
 	if s.Kind == "usenp" && inSub {
 		for _, h := range s.Hs {
 			g.subRootUse[h.ID] = true
@@ -215,7 +264,32 @@ func (g *mgen) route(inSub bool) mstmt {
 	return s
 }
 
-func (g *mgen) body(depth int, inSub bool) []mstmt {
+// known: what a route of the app owning `own` may name.
+func (g *mgen) known(own []string) []string {
+	return append(append([]string(nil), g.prog.RootCons...), own...)
+}
+
+// unregistered picks a catalogue constraint the app has not registered yet ("" if none is left).
+func (g *mgen) unregistered(own []string) string {
+	var left []string
+	for _, n := range mountConsNames() {
+		has := false
+		for _, o := range own {
+			has = has || o == n
+		}
+		if !has {
+			left = append(left, n)
+		}
+	}
+	if len(left) == 0 {
+		return ""
+	}
+	return gen.Pick(g.r, left)
+}
+
+// body generates the statements of one router. own: the constraints registered so far on the app
+// that owns the router (shared by the app and its groups).
+func (g *mgen) body(depth int, inSub bool, own *[]string) []mstmt {
 	r := g.r
 	n := r.Range(1, 5)
 	var out []mstmt
@@ -223,24 +297,74 @@ func (g *mgen) body(depth int, inSub bool) []mstmt {
 		switch {
 		case depth < 3 && g.mounts < 4 && r.Chance(1, 3):
 			g.mounts++
-			m := mstmt{Kind: "mount", Prefix: gen.Pick(r, mountPrefixes), Sub: g.subCfg()}
-			m.Body = g.body(depth+1, true)
-			if r.Chance(1, 3) {
-				k := r.Range(1, 2)
-				for j := 0; j < k; j++ {
-					m.Late = append(m.Late, g.route(true))
-				}
-			}
-			out = append(out, m)
+			out = append(out, g.mount(depth))
 		case depth < 3 && r.Chance(1, 6):
 			grp := mstmt{Kind: "group", Prefix: gen.Pick(r, mountPrefixes)}
-			grp.Body = g.body(depth+1, inSub)
+			grp.Body = g.body(depth+1, inSub, own)
 			out = append(out, grp)
+		case r.Chance(1, 10):
+			if name := g.unregistered(*own); name != "" {
+				out = append(out, g.consStmt(name, inSub, own))
+			}
+		case !inSub && r.Chance(1, 10):
+			// RebuildTree() on the serving app, the documented call after routes were added
+			out = append(out, mstmt{Kind: "rebuild"})
 		default:
-			out = append(out, g.route(inSub))
+			out = append(out, g.route(inSub, g.known(*own)))
 		}
 	}
 	return out
+}
+
+func (g *mgen) consStmt(name string, inSub bool, own *[]string) mstmt {
+	*own = append(*own, name)
+	if inSub {
+		g.subCons = true
+	}
+	return mstmt{Kind: "cons", Name: name}
+}
+
+// mount generates a mounted app. One in four registers its custom constraints one by one, each
+// (mostly) followed by a route that names the constraint registered last.
+func (g *mgen) mount(depth int) mstmt {
+	r := g.r
+	m := mstmt{Kind: "mount", Prefix: gen.Pick(r, mountPrefixes), Sub: g.subCfg()}
+	if r.Chance(1, 5) {
+		// the prefix handed over as a list; a list of several entries has no documented meaning
+		// for a sub-app (such programs are counted, not judged)
+		m.PrefixList = []string{m.Prefix}
+		if r.Chance(1, 8) {
+			m.PrefixList = append(m.PrefixList, gen.Pick(r, mountPrefixes))
+		}
+	}
+	var own []string
+	if r.Chance(1, 4) {
+		k := r.Range(2, 5)
+		for i := 0; i < k; i++ {
+			name := g.unregistered(own)
+			if name == "" {
+				break
+			}
+			m.Body = append(m.Body, g.consStmt(name, true, &own))
+			if r.Chance(3, 4) {
+				s := mstmt{Kind: "m", Methods: []string{gen.Pick(r, g.prog.methodPool())}}
+				if r.Chance(1, 4) {
+					s = mstmt{Kind: "all"}
+				}
+				s.Hs = g.hs(true)
+				g.constrain(&s, name)
+				m.Body = append(m.Body, s)
+			}
+		}
+	}
+	m.Body = append(m.Body, g.body(depth+1, true, &own)...)
+	if r.Chance(1, 3) {
+		k := r.Range(1, 2)
+		for j := 0; j < k; j++ {
+			m.Late = append(m.Late, g.route(true, g.known(own)))
+		}
+	}
+	return m
 }
 
 // subCfg: half of the mounted apps are created with routing options of their own (a sub-app is a
@@ -301,19 +425,50 @@ func mApplyRoute(rt fiber.Router, s *mstmt, tr *mtrace, shared [][]string) {
 	}
 }
 
-// buildMounted: composition (A) — real sub-apps attached with Use(prefix, subApp).
-func buildMounted(p *mprog, tr *mtrace) *fiber.App {
+// mApplyMeta performs the statements that register no handlers. owner: the app owning the
+// enclosing router (nil: constraints are not registered at their position because the app has
+// registered the whole catalogue up front); root: the app that serves the requests.
+func mApplyMeta(owner, root *fiber.App, s *mstmt) bool {
+	switch s.Kind {
+	case "cons":
+		if owner != nil {
+			registerCons(owner, []string{s.Name})
+		}
+		return true
+	case "rebuild":
+		root.RebuildTree()
+		return true
+	}
+	return false
+}
+
+// buildMounted: composition (A) — real sub-apps attached with Use(prefix, subApp). allOnRoot: the
+// root registers the whole constraint catalogue up front instead of RootCons only (used to name
+// the input class of a difference, never for a verdict).
+func buildMounted(p *mprog, tr *mtrace, allOnRoot bool) *fiber.App {
 	shared := p.sharedLists()
 	var late []func()
-	var build func(rt fiber.Router, body []mstmt)
-	build = func(rt fiber.Router, body []mstmt) {
+	rootCons := p.RootCons
+	if allOnRoot {
+		rootCons = mountConsNames()
+	}
+	app := p.newApp(p.Cfg, rootCons)
+	var build func(rt fiber.Router, owner *fiber.App, body []mstmt)
+	build = func(rt fiber.Router, owner *fiber.App, body []mstmt) {
 		for i := range body {
 			s := &body[i]
+			if mApplyMeta(owner, app, s) {
+				continue
+			}
 			switch s.Kind {
 			case "mount":
 				sub := p.subApp(s)
-				build(sub, s.Body)
-				rt.Use(s.Prefix, sub)
+				build(sub, sub, s.Body)
+				if len(s.PrefixList) > 0 {
+					rt.Use(append([]string(nil), s.PrefixList...), sub)
+				} else {
+					rt.Use(s.Prefix, sub)
+				}
 				if len(s.Late) > 0 {
 					ls := s.Late
 					late = append(late, func() {
@@ -323,14 +478,13 @@ func buildMounted(p *mprog, tr *mtrace) *fiber.App {
 					})
 				}
 			case "group":
-				build(rt.Group(s.Prefix), s.Body)
+				build(rt.Group(s.Prefix), owner, s.Body)
 			default:
 				mApplyRoute(rt, s, tr, shared)
 			}
 		}
 	}
-	app := p.newApp(p.Cfg, p.Cons == "all")
-	build(app, p.Root)
+	build(app, app, p.Root)
 	for _, f := range late {
 		f()
 	}
@@ -340,10 +494,14 @@ func buildMounted(p *mprog, tr *mtrace) *fiber.App {
 // buildFlat: composition (B) — the same handlers registered under Group(prefix) at the
 // position of the mount.
 func buildFlat(p *mprog, tr *mtrace) *fiber.App {
+	app := p.newApp(p.Cfg, mountConsNames())
 	var build func(rt fiber.Router, body []mstmt)
 	build = func(rt fiber.Router, body []mstmt) {
 		for i := range body {
 			s := &body[i]
+			if mApplyMeta(nil, app, s) {
+				continue
+			}
 			switch s.Kind {
 			case "mount":
 				g := rt.Group(s.Prefix)
@@ -358,7 +516,6 @@ func buildFlat(p *mprog, tr *mtrace) *fiber.App {
 			}
 		}
 	}
-	app := p.newApp(p.Cfg, p.Cons != "")
 	build(app, p.Root)
 	return app
 }
@@ -368,10 +525,14 @@ func buildFlat(p *mprog, tr *mtrace) *fiber.App {
 
 func buildGrouped(p *mprog, tr *mtrace) *fiber.App {
 	shared := p.sharedLists()
+	app := p.newApp(p.Cfg, p.RootCons)
 	var build func(rt fiber.Router, body []mstmt)
 	build = func(rt fiber.Router, body []mstmt) {
 		for i := range body {
 			s := &body[i]
+			if mApplyMeta(app, app, s) {
+				continue
+			}
 			if s.Kind == "group" {
 				build(rt.Group(s.Prefix), s.Body)
 			} else {
@@ -379,17 +540,19 @@ func buildGrouped(p *mprog, tr *mtrace) *fiber.App {
 			}
 		}
 	}
-	app := p.newApp(p.Cfg, p.Cons != "")
 	build(app, p.Root)
 	return app
 }
 
 func buildSpelled(p *mprog, tr *mtrace) *fiber.App {
-	app := p.newApp(p.Cfg, p.Cons != "")
+	app := p.newApp(p.Cfg, mountConsNames())
 	var build func(prefix string, body []mstmt)
 	build = func(prefix string, body []mstmt) {
 		for i := range body {
 			s := body[i]
+			if mApplyMeta(nil, app, &s) {
+				continue
+			}
 			if s.Kind == "group" {
 				build(joinPrefix(prefix, s.Prefix), s.Body)
 				continue
@@ -482,9 +645,14 @@ func mountShape(p *mprog) string {
 				if s.Sub != nil && (s.Sub.CaseSensitive != p.Cfg.CaseSensitive || s.Sub.Strict != p.Cfg.Strict) {
 					kinds["sub-app-with-other-routing-options"] = true
 				}
+				if len(s.PrefixList) > 0 {
+					kinds["prefix-given-as-list"] = true
+				}
 				walk(s.Body, depth+1)
 			} else if s.Kind == "group" {
 				walk(s.Body, depth)
+			} else if s.Kind == "rebuild" {
+				kinds["rebuildtree-during-registration"] = true
 			}
 		}
 	}
@@ -497,31 +665,137 @@ func mountShape(p *mprog) string {
 	return strings.Join(ks, "+")
 }
 
+// mountFeatures names what is particular about one mount statement.
+func mountFeatures(p *mprog, s *mstmt, nested bool, kinds map[string]bool) {
+	switch {
+	case s.Prefix == "/":
+		kinds["root-prefix"] = true
+	case strings.HasSuffix(s.Prefix, "/"):
+		kinds["trailing-slash-prefix"] = true
+	case strings.Contains(s.Prefix, ":"):
+		kinds["param-prefix"] = true
+	default:
+		kinds["plain-prefix"] = true
+	}
+	if nested {
+		kinds["nested"] = true
+	}
+	if s.Sub != nil && (s.Sub.CaseSensitive != p.Cfg.CaseSensitive || s.Sub.Strict != p.Cfg.Strict) {
+		kinds["sub-app-with-other-routing-options"] = true
+	}
+	if len(s.PrefixList) > 0 {
+		kinds["prefix-given-as-list"] = true
+	}
+}
+
+// handlerShapes gives, for every handler living in a mounted app, the input class of the mount
+// that owns it (features of that mount only, not of the whole program).
+func handlerShapes(p *mprog) map[int]string {
+	out := map[int]string{}
+	var walk func(b []mstmt, chain []*mstmt, late bool)
+	walk = func(b []mstmt, chain []*mstmt, late bool) {
+		for i := range b {
+			s := &b[i]
+			switch s.Kind {
+			case "mount":
+				ch := append(append([]*mstmt(nil), chain...), s)
+				walk(s.Body, ch, late)
+				walk(s.Late, ch, true)
+			case "group":
+				walk(s.Body, chain, late)
+			default:
+				if len(chain) == 0 {
+					continue
+				}
+				// the mount that owns the handler; outer mounts only add "nested"
+				kinds := map[string]bool{}
+				mountFeatures(p, chain[len(chain)-1], len(chain) > 1, kinds)
+				if late {
+					kinds["late-routes"] = true
+				}
+				var ks []string
+				for k := range kinds {
+					ks = append(ks, k)
+				}
+				sort.Strings(ks)
+				for _, h := range s.Hs {
+					out[h.ID] = strings.Join(ks, "+")
+				}
+			}
+		}
+	}
+	walk(p.Root, nil, false)
+	return out
+}
+
+func hasKind(b []mstmt, kind string) bool {
+	for _, s := range b {
+		if s.Kind == kind || hasKind(s.Body, kind) {
+			return true
+		}
+	}
+	return false
+}
+
 // checkMounted builds both compositions of p and compares them on the requests.
 func checkMounted(e *ev.Env, c *ev.Case, p *mprog, g *mgen, reqs [][2]string) {
 	trA, trB := &mtrace{}, &mtrace{}
 	var dA, dB *drive.Direct
-	if e.Guard(c, "mount|build-mounted", p, func() { dA = drive.NewDirect(buildMounted(p, trA)) }) {
+	if e.Guard(c, "mount|build-mounted", p, func() { dA = drive.NewDirect(buildMounted(p, trA, false)) }) {
 		return
 	}
 	if e.Guard(c, "mount|build-flat", p, func() { dB = drive.NewDirect(buildFlat(p, trB)) }) {
 		return
 	}
-	// Programs whose custom constraints are registered on the mounted apps only get a third
-	// composition: the same mounted tree with the constraints registered on the root as well. It
+	// Programs in which a mounted app registers custom constraints of its own get a third
+	// composition: the same mounted tree with the whole catalogue registered on the root as well. It
 	// never decides whether a request is a violation; it only names the input class of a
 	// difference between (A) and (B): the mounted tree answers this request differently once the
 	// root knows the constraints too, i.e. the constraints of the mounted apps were not in force.
 	trC := &mtrace{}
 	var dC *drive.Direct
-	if p.Cons == "sub" {
-		pc := *p
-		pc.Cons = "all"
-		if e.Guard(c, "mount|build-mounted", &pc, func() { dC = drive.NewDirect(buildMounted(&pc, trC)) }) {
+	if g.subCons {
+		if e.Guard(c, "mount|build-mounted", p, func() { dC = drive.NewDirect(buildMounted(p, trC, true)) }) {
 			return
 		}
 	}
-	shape := mountShape(p)
+	// input class of a difference: the mounts leading to the first handler that ran in only one
+	// composition (or, when no handler of a mounted app is involved, what ran at all)
+	hshapes := handlerShapes(p)
+	progClass := ""
+	if hasKind(p.Root, "rebuild") {
+		progClass = "+rebuildtree-during-registration"
+	}
+	shapeOf := func(a, b []mrec) string {
+		i := 0
+		for i < len(a) && i < len(b) && a[i].ID == b[i].ID {
+			i++
+		}
+		for _, recs := range [][]mrec{a, b} {
+			if i < len(recs) {
+				if sh, ok := hshapes[recs[i].ID]; ok {
+					return sh + progClass
+				}
+			}
+		}
+		for _, recs := range [][]mrec{a, b} {
+			for j := len(recs) - 1; j >= 0; j-- {
+				if sh, ok := hshapes[recs[j].ID]; ok {
+					return sh + progClass
+				}
+			}
+		}
+		if len(a) == 0 && len(b) == 0 {
+			return "no-handler-ran" + progClass
+		}
+		return "handlers-outside-mounted-apps" + progClass
+	}
+	// Use([]string{a, b, …}, subApp) with several entries has no documented meaning: such
+	// programs are run and their differences to the first-entry reading counted, not reported
+	judged := !hasMultiEntryListMount(p.Root)
+	if !judged {
+		e.Stat("trees_mounting_with_a_multi_entry_prefix_list_not_judged", 1)
+	}
 	for _, rq := range reqs {
 		m, path := rq[0], rq[1]
 		trA.recs, trB.recs = nil, nil
@@ -530,6 +804,12 @@ func checkMounted(e *ev.Env, c *ev.Case, p *mprog, g *mgen, reqs [][2]string) {
 			continue
 		}
 		if e.Guard(c, "mount|dispatch-flat", map[string]any{"program": p, "method": m, "path": path}, func() { rb = do(dB, m, path) }) {
+			continue
+		}
+		if !judged {
+			if ok, _ := recsEqual(trA.recs, trB.recs); !ok || ra.Status != rb.Status || string(ra.Body) != string(rb.Body) {
+				e.Stat("multi_entry_prefix_list_mount_differs_from_first_entry_reading", 1)
+			}
 			continue
 		}
 		e.Eval(1)
@@ -557,7 +837,7 @@ func checkMounted(e *ev.Env, c *ev.Case, p *mprog, g *mgen, reqs [][2]string) {
 			d := detail()
 			d["mounted_with_constraints_registered_on_root_too"] = map[string]any{"trace": trC.recs, "status": rc.Status, "body": string(rc.Body)}
 			e.Violation(c, "mount|custom-constraint-of-sub-app-not-enforced",
-				fmt.Sprintf("%s %s: mounted composition and Group(prefix) composition differ in %s; custom constraints are registered on the mounted apps (not on the root), and the mounted composition answers differently once the root registers them too", m, path, what), d)
+				fmt.Sprintf("%s %s: mounted composition and Group(prefix) composition differ in %s; a mounted app registers custom constraints of its own, and the mounted composition answers differently once the root registers them too", m, path, what), d)
 			return true
 		}
 		if ok, what := recsEqual(trA.recs, trB.recs); !ok {
@@ -576,7 +856,7 @@ func checkMounted(e *ev.Env, c *ev.Case, p *mprog, g *mgen, reqs [][2]string) {
 					continue
 				}
 			}
-			e.Violation(c, "mount|"+what+"-differs|"+shape,
+			e.Violation(c, "mount|"+what+"-differs|"+shapeOf(trA.recs, trB.recs),
 				fmt.Sprintf("%s %s: mounted composition and Group(prefix) composition differ in %s", m, path, what), detail())
 			continue
 		}
@@ -584,27 +864,32 @@ func checkMounted(e *ev.Env, c *ev.Case, p *mprog, g *mgen, reqs [][2]string) {
 			if consLost("response") {
 				continue
 			}
-			e.Violation(c, "mount|response-differs|"+shape,
+			e.Violation(c, "mount|response-differs|"+shapeOf(trA.recs, trB.recs),
 				fmt.Sprintf("%s %s: mounted composition answers %d %q, Group(prefix) composition %d %q", m, path, ra.Status, ra.Body, rb.Status, rb.Body), detail())
 		}
 	}
 }
 
-// genProgOptions draws the program-wide options: the configured method list and where custom
-// constraints are registered.
-func genProgOptions(r *gen.Rand, p *mprog, mounts bool) {
+func hasMultiEntryListMount(b []mstmt) bool {
+	for _, s := range b {
+		if s.Kind == "mount" && len(s.PrefixList) > 1 || hasMultiEntryListMount(s.Body) {
+			return true
+		}
+	}
+	return false
+}
+
+// genProgOptions draws the program-wide options: the configured method list and the custom
+// constraints the root registers up front.
+func genProgOptions(r *gen.Rand, p *mprog) {
 	if r.Chance(1, 3) {
 		p.Methods = append(append([]string(nil), fiber.DefaultMethods...), extraMethods...)
 	}
-	switch r.PickW(60, 20, 20) {
-	case 1:
-		p.Cons = "all"
-	case 2:
-		if mounts {
-			p.Cons = "sub"
-		} else {
-			p.Cons = "all"
-		}
+	// the root starts with 0–5 custom constraints of the catalogue
+	if r.Chance(1, 2) {
+		names := mountConsNames()
+		gen.Shuffle(r, names)
+		p.RootCons = names[:r.Range(1, len(names))]
 	}
 }
 
@@ -690,21 +975,28 @@ func runMount(e *ev.Env) {
 	})
 	e.Corpus("sub-app-custom-constraint", func(c *ev.Case) {
 		// sub := fiber.New(); sub.RegisterCustomConstraint(even); sub.Get("/:p<even>", h0); app.Use("/ab", sub)
-		p := &mprog{Cfg: Cfg{}, Cons: "sub", Root: []mstmt{{Kind: "mount", Prefix: "/ab", Body: []mstmt{
+		p := &mprog{Cfg: Cfg{}, Root: []mstmt{{Kind: "mount", Prefix: "/ab", Body: []mstmt{
+			{Kind: "cons", Name: "even"},
 			{Kind: "m", Methods: []string{"GET"}, Path: "/:p<even>", Hs: []hspec{{ID: 0, Eff: effStop}}, ConsParam: "p", ConsKind: "even"}}}}}
-		checkMounted(e, c, p, corpusGen([]int{0}, nil), [][2]string{{"GET", "/ab/xy"}, {"GET", "/ab/xyz"}, {"POST", "/ab/xyz"}})
+		g := corpusGen([]int{0}, nil)
+		g.subCons = true
+		checkMounted(e, c, p, g, [][2]string{{"GET", "/ab/xy"}, {"GET", "/ab/xyz"}, {"POST", "/ab/xyz"}})
 	})
 
 	e.Cases("trees", e.N(3000, 150000), func(c *ev.Case) {
 		r := c.R
 		p := &mprog{Cfg: Cfg{CaseSensitive: r.Bool(), Strict: r.Bool(), Unescape: r.Chance(1, 4), CustomCtx: r.Chance(1, 4)}}
-		genProgOptions(r, p, true)
+		genProgOptions(r, p)
 		g := newMgen(r, p, 14)
-		p.Root = g.body(0, false)
+		rootOwn := append([]string(nil), p.RootCons...)
+		p.Root = g.body(0, false, &rootOwn)
 		if g.mounts == 0 {
-			m := mstmt{Kind: "mount", Prefix: gen.Pick(r, mountPrefixes), Sub: g.subCfg()}
-			m.Body = g.body(2, true)
-			p.Root = append(p.Root, m)
+			g.mounts++
+			p.Root = append(p.Root, g.mount(1))
+		}
+		// an application that calls RebuildTree() once its registration is complete
+		if r.Chance(1, 4) {
+			p.Root = append(p.Root, mstmt{Kind: "rebuild"})
 		}
 		nreq := e.N(40, 60)
 		segs := []string{"", "/a", "/ab", "/abc", "/x", "/api", "/Api", "/a/b", "/v1", "/abc/d", "/", "/a:b", "/x*", "/ab+", "/Ab", "/AB", "/x/Y"}
@@ -730,8 +1022,14 @@ func runMount(e *ev.Env) {
 		if strings.Contains(shape, "sub-app-with-other-routing-options") {
 			e.Stat("trees_with_sub_app_of_other_routing_options", 1)
 		}
-		if p.Cons == "sub" {
-			e.Stat("trees_with_constraints_registered_on_sub_apps_only", 1)
+		if g.subCons {
+			e.Stat("trees_with_constraints_registered_by_mounted_apps", 1)
+		}
+		if strings.Contains(shape, "prefix-given-as-list") {
+			e.Stat("trees_mounting_with_a_prefix_list", 1)
+		}
+		if strings.Contains(shape, "rebuildtree-during-registration") {
+			e.Stat("trees_calling_rebuildtree_during_registration", 1)
 		}
 		if strings.HasPrefix(groupsClass(p), "prefix-slice-variable") {
 			e.Stat("trees_passing_one_prefix_slice_to_several_use_calls", 1)
@@ -742,8 +1040,9 @@ func runMount(e *ev.Env) {
 	e.Cases("groups", e.N(2000, 100000), func(c *ev.Case) {
 		r := c.R
 		p := &mprog{Cfg: Cfg{CaseSensitive: r.Bool(), Strict: r.Bool(), CustomCtx: r.Chance(1, 4)}}
-		genProgOptions(r, p, false)
+		genProgOptions(r, p)
 		g := newMgen(r, p, 12)
+		rootOwn := append([]string(nil), p.RootCons...)
 		// groups only, prefixes without trailing slash, paths with leading slash
 		var body func(depth int) []mstmt
 		body = func(depth int) []mstmt {
@@ -754,9 +1053,19 @@ func runMount(e *ev.Env) {
 					out = append(out, mstmt{Kind: "group", Prefix: gen.Pick(r, []string{"/api", "/:v", "/a/b", "/Api", "/ab", "/abc", "/api/", "/a/b/", "/:Ver"}), Body: body(depth + 1)})
 					continue
 				}
-				s := g.route(depth > 0)
+				if r.Chance(1, 12) {
+					if name := g.unregistered(rootOwn); name != "" {
+						out = append(out, g.consStmt(name, false, &rootOwn))
+						continue
+					}
+				}
+				if r.Chance(1, 12) {
+					out = append(out, mstmt{Kind: "rebuild"})
+					continue
+				}
+				s := g.route(depth > 0, rootOwn)
 				// paths may be spelled without their leading slash ("users" under "/api/")
-				if depth > 0 && len(s.Path) > 1 && s.Kind != "usemulti" && r.Chance(1, 4) {
+				if depth > 0 && len(s.Path) > 1 && s.Kind != "usemulti" && s.ConsKind == "" && r.Chance(1, 4) {
 					s.Path = s.Path[1:]
 				}
 				out = append(out, s)
